@@ -21,7 +21,10 @@ RULE = ('all 16 unit keys of the gas-constant table x estimates of generated '
         'temperatures across the range; elemental clause for every '
         'decomposable molecule incl. adsorbates and multi-component species. '
         'Non-trivial = an object whose relations were all evaluated for all '
-        '16 units; distinct by (library, molecule or group).')
+        '16 units; distinct by (library, molecule or group).'
+        ' Argument forms: units positional and by keyword, T as float / int '
+        '/ numpy scalar (a rotating quarter of the unit keys); S_elements '
+        'omitted / None / False / 0 / True / 1. ')
 ASSUMPTIONS = [
     'pmutt.constants.R and S_elements are trusted third-party tables (the '
     'harness carries its own copy of the 16 R values and compares)',
